@@ -42,7 +42,7 @@ META = {
     "rule": "case = (value, near-miss value, aspect) from a typed grammar (depth <= 4, width <= 4; scalars incl. the int64/long "
     "boundary, ±0.0, inf; str/bytes incl. separator look-alikes; list/tuple/set/frozenset/dict; attrs, slots and plain "
     "objects; inline types; functions from generated source, exec'd without source, closures, lambdas; functools.partial objects "
-    "and bound methods; numpy arrays and "
+    "and bound methods; numpy arrays (C / Fortran / transposed / strided layouts) and "
     "scalars of 9 dtypes, 11 shapes; shared sub-objects), or (context values, value) hashed with one Cache; distinct by "
     "canonical JSON of the pair and aspect; non-trivial = at least one of the two values is not a bare scalar",
     "assumptions": [
@@ -50,6 +50,7 @@ META = {
         "a function without retrievable source is identified by its code object, name included",
         "attrs attributes declared eq=False are not content (documented in bytes_repr); neither is an entry of an instance __dict__ whose "
         "value is a bound method (skipped by the fallback's is_special_or_method filter, whatever object the method is bound to)",
+        "the content of an array is its dtype, shape and elements in index order; its memory layout (C, Fortran, transposed or strided view) is not content",
         "floats are compared by bit pattern (0.0 and -0.0 are different contents); NaN does not occur inside sets or as dict key",
         "id() is unique among simultaneously live objects; every object reachable from the hashed value stays alive during the call",
     ],
@@ -76,6 +77,7 @@ OBLIGATIONS = [
         "C08_regression_unorderable_keys",
         "C08_old_keys_sorted_by_value",
         "C08_witness_cycle",
+        "C08_witness_layout_dependent_serialisation",
         "heads_prefix_free",
         "len_seps_ok",
         "words_ok",
@@ -360,6 +362,14 @@ def correspondence(ctx):
                 continue
             todo.append({"a": a, "b": m[0], "same": same, "aspect": m[1] if (not same or m[1].startswith("same:")) else "same:coincidence"})
             break
+    # array memory layout: equal content in two layouts (EQUAL hashes), different contents over one raw buffer (DIFFERENT)
+    for _ in range(ctx.pick(12, 150)):
+        for kind in ("layout", "raw"):
+            a, b, same = H.gen_layout_pair(ctx.rng, kind)
+            if ctx.rng.random() < 0.4:  # inside a container
+                w = ctx.rng.choice(["list", "tuple"])
+                a, b = {"k": w, "xs": [a, {"k": "int", "v": "1"}]}, {"k": w, "xs": [b, {"k": "int", "v": "1"}]}
+            todo.append({"a": a, "b": b, "same": same, "aspect": "same:array-layout" if same else "raw-buffer:same-memory-other-content"})
     for i in range(0, len(todo), batch):
         run_pairs(ctx, todo[i : i + batch], moddir)
     cs = [gen_ctx(ctx.rng) for _ in range(n_ctx)]
